@@ -87,10 +87,12 @@ struct Report {
     samples: Vec<String>,
     notes: Vec<String>,
     exhaustive: bool,
+    /// cases that are non-trivial by the family's rule (None = every case)
+    nontrivial: Option<u64>,
 }
 
 impl Report {
-    fn new(f: &str) -> Self { Report { family: f.into(), cases: 0, passed: 0, failures: vec![], samples: vec![], notes: vec![], exhaustive: true } }
+    fn new(f: &str) -> Self { Report { family: f.into(), cases: 0, passed: 0, failures: vec![], samples: vec![], notes: vec![], exhaustive: true, nontrivial: None } }
     fn check(&mut self, ok: bool, input: &str, what: &str) {
         self.cases += 1;
         if ok { self.passed += 1; if self.samples.len() < 6 { self.samples.push(input.to_string()); } }
@@ -100,8 +102,8 @@ impl Report {
         let f: Vec<String> = self.failures.iter().map(|(i, w)| format!("{{\"input\":{},\"what\":{}}}", jstr(i), jstr(w))).collect();
         let s: Vec<String> = self.samples.iter().map(|x| jstr(x)).collect();
         let n: Vec<String> = self.notes.iter().map(|x| jstr(x)).collect();
-        println!("{{\"family\":{},\"cases\":{},\"passed\":{},\"exhaustive\":{},\"failures\":[{}],\"samples\":[{}],\"notes\":[{}]}}",
-            jstr(&self.family), self.cases, self.passed, self.exhaustive, f.join(","), s.join(","), n.join(","));
+        println!("{{\"family\":{},\"cases\":{},\"passed\":{},\"nontrivial\":{},\"exhaustive\":{},\"failures\":[{}],\"samples\":[{}],\"notes\":[{}]}}",
+            jstr(&self.family), self.cases, self.passed, self.nontrivial.unwrap_or(self.cases), self.exhaustive, f.join(","), s.join(","), n.join(","));
     }
 }
 
@@ -294,6 +296,9 @@ fn fam_enum(tier: &str) -> Report {
         r.notes.push(format!("vocabulary {}: all sequences of length <= {} over {} words, kinds {:?}", vi + 1, maxlen, voc.len(), kinds));
     }
     r.notes.push(format!("outcome classes ok/syn/config/internal-panic = {:?}", classes));
+    // non-trivial = the input got past the parser (accepted, or rejected by the configuration check, or panicked);
+    // plain syn errors are the trivial bulk
+    r.nontrivial = Some(classes[0] + classes[2] + classes[3]);
     r
 }
 
